@@ -20,4 +20,8 @@ ENTRIES = {
   technique="bounded symbolic execution (engine A, z3): real variant_effect functions with symbolic sequences and symbolic variant positions/characters",
   text="substitution_effect / deletion_effect / insertion_effect (with the real ersatz.insert) run with func = identity recorder, symbolic sequence contents and symbolic variant positions in [0, L] and characters; the solver enumerates every position combination (<= 3 rows quick / 4 thorough, B <= 2/3, L <= 5/7, both trim sides) and proves the tensors reaching func equal the string-level edit (If-sum specification of deletion+equalising trim), the 'before' tensor is the reference trimmed from the same side, examples do not interact, out-of-range variants raise.",
   note=COMMON_NOTE + " Non-negative positions; conflicting substitution rows and duplicate insertion positions excluded by assumption."),
+ "C09": dict(
+  technique="bounded symbolic execution (engine A, z3): real saturation_mutagenesis with symbolic sequences, window, batch size and an uninterpreted model",
+  text="saturation_mutagenesis/_edit_distance_one/_attribution_score run over the real predict with symbolic one-hot sequences and args, every window 0 <= start < end <= L (symbolic, enumerated by the solver) plus the default, symbolic batch size, tensor- and tuple-output uninterpreted models; z3 proves y0 == F(X), y_hat[n,c,p-start] == F(X[n] with p:=c, args[n]) for every output, and the attribution output equals the documented formula (centred difference, mean over selected targets, masked unless hypothetical) written independently in exact rationals for target None/int/slice.",
+  note=COMMON_NOTE + " A <= 4, L <= 4, B <= 2 quick; A <= 5, L <= 6 thorough."),
 }
